@@ -446,6 +446,15 @@ func (g *G) introspection(sc *scope) []*m.Sel {
 			tn = g.mg.TypeNames[g.r.Intn(len(g.mg.TypeNames))]
 		}
 		s := f("__type", f("name"), f("kind"), f("possibleTypes", f("name"), f("fields", f("name"))), f("enumValues", f("name")))
+		if g.r.Bool() {
+			// the same through fragments on __Type (spread twice: once directly, once nested)
+			g.nFrag++
+			inner := &fragInfo{def: &m.Def{IsFragment: true, Name: fmt.Sprintf("F%d", g.nFrag), TypeCond: "__Type", Sel: []*m.Sel{f("name"), f("fields", f("name"))}}, needs: map[string]bool{}}
+			g.nFrag++
+			outer := &fragInfo{def: &m.Def{IsFragment: true, Name: fmt.Sprintf("F%d", g.nFrag), TypeCond: "__Type", Sel: []*m.Sel{f("kind"), f("possibleTypes", &m.Sel{Kind: m.SSpread, Name: inner.def.Name}), {Kind: m.SSpread, Name: inner.def.Name}}}, needs: map[string]bool{}}
+			g.frags = append(g.frags, inner, outer)
+			s = f("__type", &m.Sel{Kind: m.SSpread, Name: outer.def.Name}, f("name"))
+		}
 		s.Args = []m.Arg{{Name: "name", Value: &m.Value{Kind: m.VString, Raw: tn}}}
 		sc.used["__type"] = s
 		sc.subs[s] = newScope()
